@@ -46,7 +46,7 @@ theorem overlap_memo_complete (s : SchemaD) (fx : Fixes) (h7 : fx.v7 = true) (d 
     (hpa : Spec.ParentsAgree s d) (hne : AL.get? (fragTable d) "" = none) (hw : WfIds d)
     (h0 : (overlapMemoRun s fx d).1 = 0) : Spec.overlappingFieldsCanBeMerged s d :=
   memoRun_sound s fx d h7 hpa hw hne h0
-    (overlap_memo_run_no_crash s fx h7 d (rankSynB_of_wfIds s d hw))
+    (overlap_memo_run_no_crash s fx h7 d hw)
 
 /-- **5.3.2 for the rule /repo runs**: the memoised rule reports nothing exactly when the clause holds -/
 theorem rule_overlapping_fields_memo_iff (s : SchemaD) (fx : Fixes) (h7 : fx.v7 = true) (d : Doc)
@@ -85,7 +85,7 @@ theorem overlap_memo_silent_plain_silent (s : SchemaD) (fx : Fixes) (h7 : fx.v7 
     nesting depth -/
 theorem overlap_memo_run_never_crashes (s : SchemaD) (fx : Fixes) (h7 : fx.v7 = true) (d : Doc) (hw : WfIds d) :
     (overlapMemoRun s fx d).2.crash = none :=
-  overlap_memo_run_no_crash s fx h7 d (rankSynB_of_wfIds s d hw)
+  overlap_memo_run_no_crash s fx h7 d hw
 
 /-- what the driver checks on a document for the memoised rule (all computable, no run of the search, NO bound on
     the nesting depth, no ranks) -/
